@@ -30,10 +30,13 @@ KINDS = {
     'div': dict(name='div'),
     'div.k': dict(name='div', cls=['k']),
     'div[a=b]': dict(name='div', attrs=[('a', 'b')]),
+    # a name from output.booleanAttributes / a `name.` attribute with a value written: the value is kept like any other
+    'x[hidden=until a=b]': dict(name='x', attrs=[('hidden', 'until'), ('a', 'b')]),
+    'x[loop=3 e.=v]': dict(name='x', attrs=[('loop', '3'), ('e', 'v')]),
     'x.k1.k2.k3.k4.k5.k6.k7.k8.k9.k10.k11': dict(name='x', cls=['k%d' % i for i in range(1, 12)]),
 }
 SMALL = ['x', '.c', 'x#i.c[a=b d]', 'x{l1\nl2}', 'br/', 'div[a=b]']
-MID = ['x', '.c', '#i', 'x#i.c[a=b d]', 'x{t}', 'x{l1\nl2}', 'br/', 'div[a=b]']
+MID = ['x', '.c', '#i', 'x#i.c[a=b d]', 'x{t}', 'x{l1\nl2}', 'br/', 'div[a=b]', 'x[hidden=until a=b]']
 TINY = ['x', '.c', 'x{l1\nl2}', 'br/']
 SYNTAXES = ['haml', 'pug', 'slim']
 INDENTS = ['\t', '  ', '    ']
